@@ -6,18 +6,38 @@ import (
 	"github.com/NethermindEth/juno/verifh/lib"
 )
 
+const ruleText = "sequential: case = generated call sequence (25-65 calls + wind-down) over keys from bytes {00,01,7f,fe,ff} of length 0-4 (pool with extensions/prefixes/siblings), applied call by call to db/memory, db/pebblev2, db/pebble and a map model: " +
+	"store Put/Delete/DeleteRange/Get/Has/iterators/snapshots, Batch and IndexedBatch (incl. WithSize, db.SyncBatch, db.BufferBatch wrappers), Update/Write helpers with failing callbacks, failing Get callbacks, use after Write/Close, pebble memtable flushes; " +
+	"every return value (found/value/error class, iterator Valid/Key/Value/UncopiedValue after every positioning call, batch Size) compared; a backend is dropped from a sequence at its first divergence; divergences are classed by which known deviation model reproduces the observed result. " +
+	"concurrent: per backend 1 writer (direct writes, batches, helpers, aborted batches) + 3 readers (Get/Has/indexed-batch Get/snapshots/iterators), per-key porcupine register check + admissible-write check + whole-batch-or-nothing check of every snapshot/iterator view + db.SyncBatch shared by 3 goroutines; race binary runs the same. " +
+	"distinct = distinct call-kind sequences with at least one write and one compared read, plus concurrent histories in which readers saw >= 5 distinct values"
+
 func TestC15(t *testing.T) {
 	r := lib.Start("C15", "exploration")
 	col := newCollector()
 	raceBuild = r.Race
 
-	nSeq := r.N(3000, 200000)
+	nSeq := r.N(3000, 100000)
 	r.Cases(nSeq, 0, func(idx int) {
 		runSequence(r, col, idx)
 	})
 
+	// Phase 1 result is written out before the concurrent phase starts: a backend that
+	// breaks its locking can die with a Go runtime fatal error ("concurrent map read and
+	// map write"), which no recover() can turn into a violation; the run is then reported
+	// as broken, but with everything the sequential phase found.
+	col.report(r)
+	finish := func() {
+		r.Assume("the reference model (Go map; batch = ordered op list applied at Write; snapshot/iterator = copy at creation; NewIterator(prefix, withUpperBound) = lower bound prefix, upper bound = successor prefix only when requested) is the intended contract; where Juno's backends disagree with each other the model follows Pebble, the production backend")
+		r.Assume("iterator calls outside the documented contract are not generated: Next/Prev on an iterator invalidated by Prev-at-first, Prev after Next was called on an exhausted iterator, Key/Value on an invalid iterator, any use after Close; stores are not used after Close except to check that calls fail")
+		r.Assume("concurrent part: one writer; the logical clock is an atomic counter read before and after every call; iterators and snapshots are treated as point-in-time views taken during NewIterator/NewSnapshot")
+		r.Assume("pebble memtable flushes are forced through Impl() in a third of the sequences, and those sequences never use the empty key (pebble v2.1.6 panics on a background goroutine when flushing a memtable whose only user key is empty)")
+		r.Finish(ruleText, 100)
+	}
+	finish()
+
 	// concurrent histories use case indices above the sequences' (one index space for --replay)
-	nConc := r.N(96, 2000)
+	nConc := r.N(96, 1600)
 	r.Cases(nSeq+nConc, 5, func(idx int) {
 		if idx < nSeq {
 			return
@@ -28,13 +48,5 @@ func TestC15(t *testing.T) {
 	})
 
 	col.report(r)
-
-	r.Assume("the reference model (Go map; batch = ordered op list applied at Write; snapshot/iterator = copy at creation; NewIterator(prefix, withUpperBound) = lower bound prefix, upper bound = successor prefix only when requested) is the intended contract; where Juno's backends disagree with each other the model follows Pebble, the production backend")
-	r.Assume("iterator calls outside the documented contract are not generated: Next/Prev on an iterator invalidated by Prev-at-first, Prev after Next was called on an exhausted iterator, Key/Value on an invalid iterator, any use after Close; stores are not used after Close except to check that calls fail")
-	r.Assume("concurrent part: one writer; the logical clock is an atomic counter read before and after every call; iterators and snapshots are treated as point-in-time views taken during NewIterator/NewSnapshot")
-	r.Finish("sequential: case = generated call sequence (25-65 calls + wind-down) over keys from bytes {00,01,7f,fe,ff} of length 0-4 (pool with extensions/prefixes/siblings), applied call by call to db/memory, db/pebblev2, db/pebble and a map model: "+
-		"store Put/Delete/DeleteRange/Get/Has/iterators/snapshots, Batch and IndexedBatch (incl. WithSize, db.SyncBatch, db.BufferBatch wrappers), Update/Write helpers with failing callbacks, failing Get callbacks, use after Write/Close, pebble memtable flushes; "+
-		"every return value (found/value/error class, iterator Valid/Key/Value/UncopiedValue after every positioning call, batch Size) compared; a backend is dropped from a sequence at its first divergence; divergences are classed by which known deviation model reproduces the observed result. "+
-		"concurrent: per backend 1 writer (direct writes, batches, helpers, aborted batches) + 3 readers (Get/Has/indexed-batch Get/snapshots/iterators), per-key porcupine register check + admissible-write check + whole-batch-or-nothing check of every snapshot/iterator view + db.SyncBatch shared by 3 goroutines; race binary runs the same. "+
-		"distinct = distinct call-kind sequences with at least one write and one compared read, plus concurrent histories in which readers saw >= 5 distinct values", 100)
+	finish()
 }
